@@ -18,6 +18,7 @@ RULE = ('Fixed pool of ~380 values of all nine types (nested to depth 3, date/na
         'over the pool (transitivity, equality is a congruence); Hypothesis arrays/tables drawn from the pool for arraySort, dataSort, '
         'mathMin/mathMax, arrayIndexOf/arrayLastIndexOf. Non-trivial: the values have different types or one is a container '
         '(triples: >= 2 types); distinct by content hash.')
+RULE += ' Also: integers beyond the double range (2**1024, 2**1100 +- 1), aware datetimes whose UTC offsets are 26 hours apart; dataSort specifications that name a field twice with opposite directions and entries without a direction.'
 ASSUMPTIONS = [
     'NaN is excluded (the property quantifies over non-NaN values)',
     'the reference answer is asserted only where the statement fixes it: objects compared position-wise must have identical key sets',
